@@ -69,6 +69,8 @@ def generate(rseed, tier='quick'):
       rg, op, cfg, algo = draw_rule(r, regexes, ops, knobs['p_good'])
       trace.append({'op': 'add', 'm': m, 'regex': rg, 'operation': op, 'config': cfg,
                     'algorithm': algo, 'spelling': r.choice(['enum', 'str'])})
+      if r.random() < 0.3:
+        trace[-1]['defaults'] = r.choice([True, 'kw'])
     elif k < 0.80:
       rules = [draw_rule(r, regexes, ops, 0.9) for _ in range(r.randint(0, 5))]
       if rules and r.random() < 0.35:
@@ -285,7 +287,13 @@ def execute(doc):
       aop = A.mk_op(op['operation'], op.get('spelling', 'enum'))
       algo = A.mk_algo(op['algorithm'], op.get('spelling', 'enum'))
       try:
-        mg.add(op['regex'], aop, cfg, algo)
+        if op.get('defaults'):
+          from sim import editgen
+          editgen.call_update(mg.q.update_quantization_recipe if mg.q is not None
+                              else mg.rm.add_quantization_config, op, cfg, op.get('spelling', 'enum'))
+          rec.probe('call_with_default_arguments')
+        else:
+          mg.add(op['regex'], aop, cfg, algo)
         outcome = 'accepted'
       except Exception as e:  # pylint: disable=broad-except
         outcome = 'rejected:' + harness.exc_class(e)
